@@ -331,6 +331,48 @@ class Effects:
                     out.append(Effect("module-mutation", f, n, root, f".{n.func.attr}()"))
         return out
 
+    def returns_fresh(self, g, _stack=()):
+        """Every value g returns is a container g built itself (a literal, comprehension, list()/dict()/sorted() result, a local that
+        is only ever bound to such values, or the result of a package function with the same property): the caller may store into
+        it without touching shared data."""
+        cache = self.__dict__.setdefault("_fresh_cache", {})
+        if id(g) in cache:
+            return cache[id(g)]
+        if id(g) in _stack:
+            return False
+        nodes = self.own_nodes(g)
+        params = set(g.params()) | {x.arg for x in g.node.args.kwonlyargs}
+        binds = {}
+        for n in nodes:
+            if isinstance(n, ast.Assign):
+                for t in n.targets:
+                    for x in _bound_names(t):
+                        binds.setdefault(x, []).append(n.value if isinstance(t, ast.Name) else None)
+            elif isinstance(n, (ast.AnnAssign, ast.NamedExpr)) and isinstance(n.target, ast.Name):
+                binds.setdefault(n.target.id, []).append(n.value)
+            elif isinstance(n, (ast.For, ast.comprehension)):
+                for x in _bound_names(n.target):
+                    binds.setdefault(x, []).append(None)
+            elif isinstance(n, ast.AugAssign) and isinstance(n.target, ast.Name):
+                binds.setdefault(n.target.id, []).append(None)
+
+        def ok(v, depth=0):
+            if v is None or _fresh_expr(v):
+                return True
+            if isinstance(v, ast.Call) and isinstance(v.func, (ast.Name, ast.Attribute)):
+                d = self.program.resolve_expr(g.module, v.func)
+                if isinstance(d, Func):
+                    return self.returns_fresh(d, _stack + (id(g),))
+                return False
+            if isinstance(v, ast.Name) and v.id not in params and depth < 3:
+                vals = binds.get(v.id)
+                return bool(vals) and all(b is not None and ok(b, depth + 1) for b in vals)
+            return False
+
+        res = all(ok(n.value) for n in nodes if isinstance(n, ast.Return))
+        cache[id(g)] = res
+        return res
+
     def _registry_tainted(self, f, nodes):
         """Local names bound (transitively) to data handed out by registry.get / the spec accessors."""
         prog = self.program
@@ -350,10 +392,13 @@ class Effects:
 
         def fresh(expr):
             # the outermost operation builds a new container: sorted(...), list(...), dict(...), {..}, [..], comprehension
-            if isinstance(expr, (ast.List, ast.Dict, ast.ListComp, ast.DictComp, ast.SetComp, ast.Tuple, ast.Set, ast.Constant, ast.JoinedStr)):
+            if _fresh_expr(expr):
                 return True
-            if isinstance(expr, ast.Call) and isinstance(expr.func, ast.Name) and expr.func.id in ("sorted", "list", "dict", "tuple", "set", "frozenset", "str", "len", "int", "cast") and expr.func.id != "cast":
-                return True
+            # ... or is a call of a package function that only ever returns containers it has built itself
+            if isinstance(expr, ast.Call) and isinstance(expr.func, (ast.Name, ast.Attribute)):
+                d = prog.resolve_expr(f.module, expr.func)
+                if isinstance(d, Func) and d.qualname not in sources and self.returns_fresh(d):
+                    return True
             return False
 
         changed = True
@@ -379,6 +424,14 @@ class Effects:
                                 tainted.add(x)
                                 changed = True
         return tainted
+
+
+def _fresh_expr(expr):
+    if isinstance(expr, (ast.List, ast.Dict, ast.ListComp, ast.DictComp, ast.SetComp, ast.Tuple, ast.Set, ast.Constant, ast.JoinedStr)):
+        return True
+    if isinstance(expr, ast.Call) and isinstance(expr.func, ast.Name) and expr.func.id in ("sorted", "list", "dict", "tuple", "set", "frozenset", "str", "len", "int"):
+        return True
+    return False
 
 
 def _bound_names(target):
